@@ -172,7 +172,7 @@ class Run:
 
 def _request(svc):
     if svc in ("FIND", "FINDREPO"):
-        return find_rq(MSG_ID, REPOSITORY_QUERY if svc == "FINDREPO" else PATIENT_ROOT_FIND), evt.EVT_C_FIND
+        return find_rq(MSG_ID, REPOSITORY_QUERY if svc == "FINDREPO" else FIND_SOP_OVERRIDE or PATIENT_ROOT_FIND), evt.EVT_C_FIND
     if svc == "GET":
         return get_rq(MSG_ID), evt.EVT_C_GET
     if svc == "MOVE":
@@ -222,6 +222,11 @@ def _request(svc):
 DS_ATTR = {"FIND": "Identifier", "FINDREPO": "Identifier", "GET": "Identifier", "MOVE": "Identifier", "NGET": "AttributeList",
            "NSET": "AttributeList", "NACTION": "ActionReply", "NCREATE": "AttributeList", "NCREATE0": "AttributeList", "NEVENT": "EventReply"}
 
+
+# C-FIND is served by several service classes with SCP implementations of their own; for scripts with at most one result the
+# Relevant Patient Information Query SCP ("at most one match") must behave like the shared one - set by the caller around execute()
+FIND_SOP_OVERRIDE = None
+RELEVANT_PATIENT_GENERAL = "1.2.840.10008.5.1.4.37.1"
 
 # the request's Message ID: an ordinary value and the ends of the legal range (a US element: 0 and 65535 are legal), in turn
 _MSG_IDS = (77, 0, 65535)
